@@ -7,10 +7,12 @@ CONSTANTS
   Lifetime = TRUE
   Post = TRUE
   Syncs = {TRUE, FALSE}
+  SrcKinds = {"coop", "silent"}
   RaceHandoff = TRUE
   LatchMsg = TRUE
   LatchAck = TRUE
   CloseSendOnExit = TRUE
   CancelOnReturn = FALSE
+  FmsgWakesOnLatch = TRUE
 INVARIANTS InOrder NoUnknownForwarded NoStuck EveryScriptEnds
 CHECK_DEADLOCK FALSE
